@@ -15,7 +15,7 @@ func HarnessC01a() {
 	cur, err := NewRoot(&CreateRemoteOptions{BranchFactor: bf}).LoadMast(vctx, cfg)
 	verifAssert("C01.new.err", err == nil)
 	md := &symModel{}
-	probe := symKey{verifNondetU64("probe")}
+	probe := symKey{verifNondetKey("probe")}
 	for i := 0; i < K; i++ {
 		cur, md, _ = applyOps("h", cur, md, cfg, 1, 5)
 		checkTree("step", cur, md, probe)
